@@ -1,7 +1,7 @@
 (** C13 — Cancelling a task affects only that task. (what is established so far; the theorems
     about queued and suspended targets over the pool model are added from Sched/PoolProofs) *)
 From OCV Require Import Base.Prelude Misc.Time Coroutine.Co Sched.Sched Sched.Pool Sched.PoolOracle.
-From OCV Require Import Sched.PoolWf Sched.PoolRun Sched.PoolProofs Sched.PoolInv Sched.PoolExample.
+From OCV Require Import Sched.PoolWf Sched.PoolRun Sched.PoolProofs Sched.PoolInv Sched.PoolExample Sched.PoolBystander Sched.PoolByProofs.
 From OCV Require Import Sched.Cancel.
 Open Scope Z_scope.
 
@@ -28,9 +28,16 @@ Theorem C13_single_pool : forall clock cfg ops, wf_pool1 clock cfg ops = true ->
   po_c13 (fst (self_flags clock [cfg] ops)) = true.
 Proof. exact c13_model1. Qed.
 
+(** the bystander clause: in every well-formed single-pool history a worker coroutine is reported
+    Cancelled only while it carries a task whose cancel was requested earlier *)
+Theorem C13_single_pool_no_bystander : forall clock cfg ops, wf_pool1 clock cfg ops = true ->
+  bystander_ok ops (cut_div (canon_obs [] (prun (pw0 clock [cfg]) ops))) = true.
+Proof. exact bystander_model1. Qed.
+
 Example C13_nonvacuous : wf_pool1 0 ex_cfg ex_ops = true.
 Proof. exact ex_wf. Qed.
 
 Print Assumptions C13_running_cancel_hits_target.
 Print Assumptions C13_refuted_signal_hits_current_coroutine.
 Print Assumptions C13_single_pool.
+Print Assumptions C13_single_pool_no_bystander.
